@@ -58,6 +58,7 @@ pub fn c12(ctx: &Ctx, rep: &mut Report) {
         if ctx.only.is_none() && (ctx.expired() || idx >= ctx.max_cases) {
             break;
         }
+        ctx.begin(idx);
         let mut rng = Rng::derive(&[ctx.seed, ctx.shard, idx, 12]);
         let fmt = if idx % 2 == 0 { Fmt::Fasta } else { Fmt::Fastq };
         let opts = GenOpts {
@@ -387,6 +388,7 @@ pub fn c13(ctx: &Ctx, rep: &mut Report) {
         if ctx.only.is_none() && (ctx.expired() || idx >= ctx.max_cases) {
             break;
         }
+        ctx.begin(idx);
         let mut rng = Rng::derive(&[ctx.seed, ctx.shard, idx, 13]);
         let fmt = if idx % 2 == 0 { Fmt::Fasta } else { Fmt::Fastq };
         let (mut bytes, family) = crate::m_basic::seeded_input(&mut rng, fmt, ctx.shard);
@@ -532,6 +534,7 @@ pub fn c18(ctx: &Ctx, rep: &mut Report) {
         if ctx.only.is_none() && (ctx.expired() || idx >= ctx.max_cases) {
             break;
         }
+        ctx.begin(idx);
         let mut rng = Rng::derive(&[ctx.seed, ctx.shard, idx, 18]);
         let fmt = if idx % 2 == 0 { Fmt::Fasta } else { Fmt::Fastq };
         let sets = idx % 4 >= 2;
@@ -840,6 +843,7 @@ pub fn c19(ctx: &Ctx, rep: &mut Report) {
         if ctx.only.is_none() && (ctx.expired() || idx >= ctx.max_cases) {
             break;
         }
+        ctx.begin(idx);
         let mut rng = Rng::derive(&[ctx.seed, ctx.shard, idx, 19]);
         let fmt = if idx % 2 == 0 { Fmt::Fasta } else { Fmt::Fastq };
         let replay = ctx.replay_json(idx);
@@ -1039,6 +1043,7 @@ pub fn c20(ctx: &Ctx, rep: &mut Report) {
         if ctx.only.is_none() && (ctx.expired() || idx >= ctx.max_cases) {
             break;
         }
+        ctx.begin(idx);
         let mut rng = Rng::derive(&[ctx.seed, ctx.shard, idx, 20]);
         let replay = |extra: serde_json::Value| {
             let mut j = ctx.replay_json(idx);
